@@ -750,6 +750,19 @@ pub fn goldens() -> Vec<Golden> {
         Box::new(|e, _s, sg| one_ix(ix::edit_staked_settings(e.w.group, sg, marginfi::instructions::StakedSettingsEditConfig { oracle: None, asset_weight_init: None, asset_weight_maint: None, deposit_limit: Some(42), total_asset_value_init_limit: None, oracle_max_age: None, risk_tier: None }), &[sg])),
         vec![],
     ));
+    v.push(admin(
+        "propagate_staked_settings",
+        Role::Anyone,
+        Box::new(staked_prep),
+        Box::new(|e, _s, sg| {
+            let b = &e.w.banks[1];
+            // the group's settings name an oracle of their own; the bank's two staking accounts follow it
+            let st: marginfi_type_crate::types::StakedSettings = crate::world::read_pod(_s.data(&ix::staked_settings_key(&e.w.group)));
+            let cfg = crate::world::bank(_s, &b.key).config;
+            one_ix(ix::propagate_staked_settings(e.w.group, b.key, vec![ix::ro(st.oracle), ix::ro(cfg.oracle_keys[1]), ix::ro(cfg.oracle_keys[2])]), &[sg])
+        }),
+        vec![],
+    ));
     v.push(admin("configure_deleverage_withdrawal_limit", Role::GroupAdmin, Box::new(base), Box::new(|e, _s, sg| one_ix(ix::configure_deleverage_withdrawal_limit(e.w.group, sg, 1000), &[sg])), vec![]));
     v.push(admin("write_bank_metadata", Role::Metadata, Box::new(base), Box::new(|e, _s, sg| one_ix(ix::write_bank_metadata(e.w.group, e.w.banks[0].key, sg, Some(b"USDC".to_vec()), Some(b"usd coin".to_vec())), &[sg])), vec![0]));
     v.push(admin("init_bank_metadata", Role::Anyone, Box::new(base), Box::new(|e, _s, sg| one_ix(ix::init_bank_metadata(e.w.banks[1].key, sg), &[sg])), vec![1]));
